@@ -442,4 +442,4 @@ pub fn run(rep: &Report) {
     rep.floor("function-plane evaluations", rep.evals(), 50_000_000);
 }
 
-pub const RULE: &str = "function plane: byte mul/imul/div/idiv over all 2^16 AX x all 256 operands (exhaustive), word forms over the DX:AX x operand boundary lattice plus seeded random 48-bit triples biased to the quotient-overflow boundary, adjust/convert instructions over all 2^16 AX x {AF,CF,other flags} (exhaustive); instruction plane: all six operand forms incl. operands aliasing AX/DX; CLI: divide-error programs end-to-end. Undefined flags masked, documented accept-sets for DAA/DAS/AAA/AAS/AAM and the most negative IDIV quotient. Distinct = (function, operand) resp. (function, DX) resp. (instruction, flags out) classes.";
+pub const RULE: &str = "function plane: byte mul/imul/div/idiv over all 2^16 AX x all 256 operands (exhaustive), word forms over the DX:AX x operand boundary lattice plus seeded random 48-bit triples biased to the quotient-overflow boundary, adjust/convert instructions over all 2^16 AX x {AF,CF,other flags} (exhaustive); instruction plane: all six operand forms incl. operands aliasing AX/DX; CLI: divide-error programs end-to-end. Undefined flags masked, documented accept-sets for DAA/DAS/AAA/AAS/AAM and the most negative IDIV quotient. Distinct = (function, operand) resp. (function, DX) resp. (instruction, flags out) classes. History planes: lock-step and mixed-family histories; the divide-error path through the binary with comment lines (ASCII / multi-byte), blank lines and data lines around the division.";
